@@ -103,7 +103,7 @@ package reconciler
 //@ end
 
 //@ func (*hdlr).notify
-//@   props C14
+//@   props C14 C13
 //@   ensures enqueued: calls(Enqueue) == 1
 //@   ensures full:     old(h.full) ==> before(Enqueue, h.w.ch.NeedFullSync)
 //@ end
@@ -164,7 +164,24 @@ package reconciler
 // C14 — links and change descriptions carry namespace/name: the namespace
 // prefix is applied last, also when the handler maps the object to another name
 //@ func (*hdlr).compose
-//@   props C14
+//@   props C14 C08
 //@   at call appenddedup#1 assert namespaced: obj.GetNamespace() != "" ==> hasPrefix($arg1, obj.GetNamespace() + "/")
+//@   at call appenddedup#1 assert cluster-scoped: obj.GetNamespace() == "" && old(h.name) == nil ==> $arg1 == obj.GetName()
 //@   at call appenddedup#1 assert kind: $arg0 == ch.Links[h.res]
+//@ end
+
+// C13 — watcher events are enqueued through the rate limiter only
+//@ func (*hdlr).notify#limited
+//@   props C13
+//@   ensures limited: calls(QAdd) == 0 && calls(QAddAfter) == 0 && calls(Enqueue) == 1
+//@ end
+
+// C14 — ConfigMap events: the global ConfigMap feeds the global chain, the tcp
+// ConfigMap the tcp chain, anything else neither
+//@ func (*watchers).handlersCore$1
+//@   props C14
+//@   requires state: w.ch != nil && w.cfg != nil
+//@   lemma global: key == w.cfg.ConfigMapName ==> w.ch.GlobalConfigMapDataNew == cm.Data && (key != w.cfg.TCPConfigMapName ==> w.ch.TCPConfigMapDataNew == old(w.ch.TCPConfigMapDataNew))
+//@   lemma tcp:    key != w.cfg.ConfigMapName && key == w.cfg.TCPConfigMapName ==> w.ch.TCPConfigMapDataNew == cm.Data && w.ch.GlobalConfigMapDataNew == old(w.ch.GlobalConfigMapDataNew)
+//@   lemma other:  key != w.cfg.ConfigMapName && key != w.cfg.TCPConfigMapName ==> w.ch.TCPConfigMapDataNew == old(w.ch.TCPConfigMapDataNew) && w.ch.GlobalConfigMapDataNew == old(w.ch.GlobalConfigMapDataNew)
 //@ end
